@@ -411,6 +411,7 @@ def gen_behaviours(rnd, prog, k, n_ops, senders):
                 sends.append(s)
             rule["sends"] = sends
             rule["sends_jlt"] = ri(rnd, k["sends_jlt"])
+            rule["sends_dplt"] = rnd.randint(1, 3)
         if rule:
             beh[full] = [rule]
     return beh, gv
